@@ -30,7 +30,7 @@ def run(chk, repo):
     chk.rule("C02-X1", "final subscript = (row component, *indexers[1:])", 1)
     chk.rule("C02-X2", "result rank depends on the row indexer being an integer", 1)
     chk.rule("C02-X3", "stacking of a possibly empty list of rows is guarded", 1)
-    chk.rule("C02-X4", "declared indexing support is served; keys are forwarded unchanged; row dispatch covers int and slice", 4)
+    chk.rule("C02-X4", "declared indexing support is served; keys are forwarded unchanged; row dispatch covers int and slice", 5)
     am = repo.module(ARRAY)
     gi = am.func("Array.__getitem__")
     where = f"{am.relpath}:Array.__getitem__"
@@ -155,8 +155,14 @@ def run(chk, repo):
     for c in calls_in(gi):
         if any(x.key.endswith(":compute_selected_ranges") for x in resolve_callees(repo, gi, c.func)):
             c0 = c
-    chk.require(c0 is not None and len(c0.args) == 2 and norm(c0.args[1]) == f"{param}[0]" and norm(c0.args[0]) == "self.byte_ranges", "C02-X4", where,
-                f"rows are selected by {param}[0] from self.byte_ranges", "rows are not selected by the first indexer", key="getitem:row-indexer")
+    if c0 is None:
+        raise AnalysisError("anchor vanished: compute_selected_ranges call in Array.__getitem__")
+    from ..interproc import bind_args
+    from ..dataflow import require_wired
+    b0, _ = bind_args(resolve_callees(repo, gi, c0.func)[0], c0)
+    sr_params = am.func("compute_selected_ranges").positional_params
+    require_wired(chk, flow, b0.get(sr_params[1]), f"{param}[0]", "C02-X4", where, f"rows are selected by {param}[0]", "rows are not selected by the first indexer", key="getitem:row-indexer")
+    require_wired(chk, flow, b0.get(sr_params[0]), "self.byte_ranges", "C02-X4", where, "rows are selected from self.byte_ranges", "rows are not selected from self.byte_ranges", key="getitem:row-source")
     chk.count("functions", 5)
 
 
